@@ -1,7 +1,7 @@
 """All contracts, by name."""
-from . import symbolic_nodes, negation, quantifiers
+from . import symbolic_nodes, negation, quantifiers, mappings
 
-MODULES = [symbolic_nodes, negation, quantifiers]
+MODULES = [symbolic_nodes, negation, quantifiers, mappings]
 
 
 def all_contracts():
